@@ -34,6 +34,56 @@ def _is_fcc(t):
     return t[0] == "call" and t[1] == ("attr", SELF, "_format_called_contests")
 
 
+def _innermost_call(term, suffix):
+    """the call of a function named *suffix that contains no other such call: the straddle (minimum / maximum around the
+    prediction) is applied first, so it sits below any clamp a call adjustment may be written with"""
+    cands = [x for x in ir.walk(term) if x[0] == "call" and ir.show(x[1]).endswith(suffix)]
+    for c in cands:
+        if not any(o is not c and o != c for o in ir.walk(c) if o[0] == "call" and ir.show(o[1]).endswith(suffix)):
+            return c
+    return None
+
+
+def interval_adjustment_terms(ctx):
+    """Shared with C06.R7: the top-level views of the two returned bounds of get_aggregate_prediction_intervals, the terms they
+    start from (the straddled bounds), the call / stop vectors, the region domain over {-0.005, 0, +0.005} and the constant folder.
+    -> dict(R, fold, LO, UP, L0, U0, CALLED, STOP, TOPC, codes, fn)"""
+    repo = ctx.repo
+    cls = repo.cls(BM, "BootstrapElectionModel")
+    from ..util import const_attr
+    thr = {}
+    for a in ("lhs_called_threshold", "rhs_called_threshold"):
+        c = const_attr(repo, a)
+        ctx.require(c is not None, f"self.{a} is not a repository-wide constant")
+        thr[a] = c[1]
+    R = Regions(sorted({thr["lhs_called_threshold"], 0, thr["rhs_called_threshold"]}, reverse=True))
+
+    def fold(t):
+        if t[0] == "attr" and t[1] == SELF and t[2] in thr:
+            return ("const", thr[t[2]])
+        return None
+
+    b = ctx.builder(inline=lambda caller, call, callee: callee.name == "_adjust_called_contests")
+    gi = ctx.fn(BM, "BootstrapElectionModel.get_aggregate_prediction_intervals")
+    isum = b.summarize(gi, self_cls=cls)
+    TOPC = ("call", ("attr", SELF, "_is_top_level_aggregate"), (("param", "aggregate"),), ())
+    ir_ret = isum.ret()
+    ctx.require(ir_ret[0] == "call" and len(ir_ret[2]) == 2, f"{gi.where()}: result is not PredictionIntervals(lower, upper)")
+    LO, UP = ir_ret[2]
+    LO, UP = ir.resolve_phi(LO, TOPC, True), ir.resolve_phi(UP, TOPC, True)
+    L0 = _innermost_call(LO, "minimum")
+    U0 = _innermost_call(UP, "maximum")
+    ctx.require(L0 is not None and U0 is not None, f"{gi.where()}: straddled bounds (minimum / maximum around the prediction) not found under the adjustment")
+    fccs = [x for x in ir.walk(LO) if _is_fcc(x)] + [x for x in ir.walk(UP) if _is_fcc(x)]
+    called_i = [x for x in fccs if len(x[2]) == 6 and x[2][1] != ("list", ())]
+    stop_i = [x for x in fccs if len(x[2]) == 6 and x[2][1] == ("list", ())]
+    ctx.require(called_i and stop_i, f"{gi.where()}: call / stop vectors not found in the interval adjustment")
+    codes = called_i[0][2][3:6]
+    ctx.require(all(c[0] == "const" for c in codes), f"{gi.where()}: call codes are not literals")
+    return dict(R=R, fold=fold, LO=LO, UP=UP, L0=L0, U0=U0, CALLED=called_i[0], STOP=stop_i[0], TOPC=TOPC,
+                codes=tuple(c[1] for c in codes), fn=gi, thr=thr)
+
+
 def check(ctx):
     repo = ctx.repo
     ctx.explanation = (
@@ -245,8 +295,8 @@ def check(ctx):
     LO = ("phi", TOPC, ir.resolve_phi(LO, TOPC, True), ir.resolve_phi(LO, TOPC, False))
     UP = ("phi", TOPC, ir.resolve_phi(UP, TOPC, True), ir.resolve_phi(UP, TOPC, False))
     # the unadjusted (straddled) bounds are what the top-level adjustment starts from: the deepest common operand
-    L0 = next((x for x in ir.walk(LO[2]) if x[0] == "call" and ir.show(x[1]).endswith("minimum")), None)
-    U0 = next((x for x in ir.walk(UP[2]) if x[0] == "call" and ir.show(x[1]).endswith("maximum")), None)
+    L0 = _innermost_call(LO[2], "minimum")
+    U0 = _innermost_call(UP[2], "maximum")
     ctx.require(L0 is not None and U0 is not None, f"{gi.where()}: straddled bounds (minimum / maximum around the prediction) not found under the adjustment")
     fccs = [x for x in ir.walk(LO[2]) if _is_fcc(x)] + [x for x in ir.walk(UP[2]) if _is_fcc(x)]
     called_i = [x for x in fccs if len(x[2]) == 6 and x[2][1] != ("list", ())]
